@@ -107,14 +107,14 @@ def check_C05():
 def check_C12():
     if tier() == "quick":
         store_family("C12", "Store_res", ["depth=5", "tail=0", "cover=0", "c05=1", "c12=1", "ops=put,discard,finalize,reopen"],
-                     "every interleaving of {Put x3 blocks, Discard, Finalize, reopen(same | other root | extra root | fewer roots | other data "
-                     "padding | other version)} of length <= 5 x 24 option sets x 4 root lists (incl. duplicate roots) x both stores; the final file "
+                     "every interleaving of {Put x3 blocks, Discard, Finalize, reopen(same | other root | same-multihash other-codec root | extra root | fewer roots | other data "
+                     "padding | data padding beyond the end of the file | other version)} of length <= 5 x 16 option sets (thorough: 24) x 4 root lists (incl. duplicate roots) x both stores; the final file "
                      "of each resumed session is compared byte-for-byte with the uninterrupted real session and with the specification's layout; "
                      "a refused reopen must leave the file bytes unchanged",
                      "complete P-layer graph for MaxSecs=4; all such paths <= 5 replayed")
     else:
-        store_family("C12", "Store_res", ["depth=7", "tail=0", "cover=1", "c05=1", "c12=1", "ops=put,discard,finalize,reopen"],
-                     "as quick with interleavings of length <= 7", "complete graph MaxSecs=4; all such paths <= 7", workers=16)
+        store_family("C12", "Store_res6", ["depth=6", "tail=0", "cover=1", "c05=1", "c12=1", "ops=put,discard,finalize,reopen"],
+                     "as quick with interleavings of length <= 6", "complete graph MaxSecs=4; all such paths <= 6", workers=16)
 
 
 def replay_generic(pid, path):
@@ -125,7 +125,7 @@ def replay_generic(pid, path):
     if fam == "store":
         cfg = {"C04": "Store_sem", "C05": "Store_lay", "C12": "Store_res"}.get(pid, "Store_sem")
         if tier() == "thorough":
-            cfg = {"C04": "Store_sem4", "C05": "Store_lay3"}.get(pid, cfg)
+            cfg = {"C04": "Store_sem4", "C05": "Store_lay3", "C12": "Store_res6"}.get(pid, cfg)
         emit = run_tlc("MCStore", cfg + "_emit.cfg", timeout=1500)
         tlc_must_pass(emit, "emitter")
         rp = os.path.join(scratch(), "one.json")
@@ -595,7 +595,24 @@ def check_C17():
     em = run_tlc("MCExtractFS", emitcfg, timeout=2400)
     tlc_must_pass(em, "ExtractFS.tla emitter")
     rc, rep = harness_run(vh, ["extract-replay", em["out"], "@REPORT", car], timeout=3400)
+    # bare file roots (written to <out>/unknown without passing through resolvePath): focused configuration
+    fmodel = run_tlc("MCExtractFS", "ExtractFS_froot_guardTRUE.cfg", timeout=1800)
+    tlc_must_pass(fmodel, "ExtractFS.tla invariant Contained with file roots")
+    fnoguard = run_tlc("MCExtractFS", "ExtractFS_froot_guardFALSE.cfg", timeout=1800)
+    fem = run_tlc("MCExtractFS", "ExtractFS_froot_emit.cfg", timeout=2400)
+    tlc_must_pass(fem, "ExtractFS.tla emitter (file roots)")
+    rc2, rep2 = harness_run(vh, ["extract-replay", fem["out"], "@REPORT", car], timeout=3400)
+    rep["evaluations"] += rep2["evaluations"]
+    rep["distinct_nontrivial"] += rep2["distinct_nontrivial"]
+    rep["violations"] = (rep["violations"] or []) + (rep2["violations"] or [])
+    rep["inconclusive"] = (rep.get("inconclusive") or []) + (rep2.get("inconclusive") or [])
+    rep["model_drift"] = (rep.get("model_drift") or []) + (rep2.get("model_drift") or [])
+    rep["counters"]["file_root_archives"] = rep2["counters"].get("archives", 0)
+    rep["counters"]["file_root_states"] = fmodel["distinct"]
     cov = merge_cov(model, em, rep, {
+        "file_roots": "archives of <= 3 top-level items over {file root (extracted as <out>/unknown), file/symlink/directory named 'unknown' or 'a'} x output directory {empty, 'unknown' a symlink "
+                      "to the sentinel file / dangling outside / to the sentinel directory, a directory, a file}: %d archives; without the final-component guard TLC gives: %s"
+                      % (rep2["counters"].get("archives", 0), fnoguard.get("violated")),
         "rule": "every archive of <= %d top-level entries over {file, symlink, directory (with <= 1 child)} x names {a, b, ../a, a/b, ..} x 6 symlink targets (relative and absolute, to the sentinel file, the sentinel "
                 "directory, inside, dangling outside) x output directory {empty, holding a symlink to the sentinel file, a symlink to the sentinel directory, a directory}, each as one root with (possibly repeated) "
                 "names and as two roots; the built car binary extracts it inside a sandbox and a recursive snapshot (names, types, contents, link targets, mtimes) of everything outside the output directory "
